@@ -402,6 +402,13 @@ func c07ClosedChecks(c *Check, P string, r *GCRoles) {
 		for _, f := range Callers([]*ssa.Function{Pub}, r.Fan) {
 			c.Report(GuardedBy(Pub, f, closedFalse), P+".O5", "PUBLISH-NOTHING-WHEN-CLOSED", Pub, f.Pos(), "fan-out", "nothing is sent unless the closed check answered 'open'")
 		}
+		var srcs []ErrSource
+		for _, f := range Callers([]*ssa.Function{Pub}, r.Fan) {
+			if n := f.Common().Signature().Results().Len(); n > 0 {
+				srcs = append(srcs, ErrSource{f, n - 1})
+			}
+		}
+		ErrorsOnlyFrom(c, P+".O5", "PUBLISH-FAILS-ONLY-WHEN-CLOSED", Pub, srcs, closedTrue, "Publish refuses a batch only when the Pub/Sub is closed (or the fan-out reports an error): no other condition — no subscribers, an option, the size of the batch — makes it fail or skip")
 		// Close keeps the closed lock while it waits for the teardown goroutines, and those take the subscribers lock and
 		// the topic mutex: whoever holds one of these must not ask for the closed lock
 		for _, ck := range chk {
@@ -439,6 +446,7 @@ func c07ClosedChecks(c *Check, P string, r *GCRoles) {
 	}
 	S := r.Subscribe
 	closedTrue, _ := BoolEdges(S, func(v ssa.Value) bool { return AllOrigins(v, IsFieldLoad(r.Closed)) })
+	ErrorsOnlyFrom(c, P+".O5", "SUBSCRIBE-FAILS-ONLY-WHEN-CLOSED", S, nil, closedTrue, "Subscribe fails only when the Pub/Sub is closed")
 	if c.Floor(P+".O5", "closed check in Subscribe", len(closedTrue), 1) {
 		for _, e := range closedTrue {
 			re := ReachEdge(e, nil)
